@@ -1,4 +1,4 @@
-"""C06 — the system clock is the scaled, pausable image of real time (sequential histories)."""
+"""C06 — the system clock is the scaled, pausable image of real time (sequential histories, and two threads at source-line granularity)."""
 from fractions import Fraction
 
 from harness.core import cb, cl, cq
@@ -12,12 +12,13 @@ COQ_AGREE = "agree"
 COQ_PROP_OK = "prop_ok"
 RULE = ("seeded histories (length <= 60) over read(time|perf_counter|monotonic) / set_time_scale / get_time_scale / is_paused / pause / resume / "
         "state_dict / load_state_dict / sleep, with real-time advances between operations; all values dyadic so that float arithmetic is exact "
-        "(scales 1/4..8 and 3, 5; sleeps are multiples of the current scale); a malformed stream sets scales <= 0. "
+        "(scales 1/4..8 and 3, 5; sleeps are multiples of the current scale); a malformed stream sets scales <= 0; plus two-thread programs (2-7 operations each) over one controller, preempted at 0-6 chosen points among all source lines of time.py and lock operations, judged as the sequential history in lock-acquisition order. "
         "Non-trivial = contains a scale change, a pause/resume pair with an advance inside, and a read after an export or load; distinct = canonical JSON.")
 TRUSTED = [
     "Coq 8.16.1 kernel incl. vm_compute",
     "hand-written model coq/Model/Clock.v of time.py TimeController (one channel; Check/C06.v projects the three channels)",
     "harness/sim/faketime.py: pamiq_core/time.py re-executed on a virtual stdlib `time` module",
+    "harness/impl/c06line.py + harness/sim/sched.py: line-level interleaving of two sim threads over one TimeController (sim RLock, virtual raw clock); serialisation by lock-acquisition order",
     "float arithmetic on the generated dyadic values is exact (values < 2^31 with <= 12 fractional bits)",
 ]
 ASSUMPTIONS = [
@@ -62,9 +63,69 @@ def gen_one(rng):
     return {"now0": [rng.randint(0, 4096), rng.choice([1, 16])], "ops": ops}
 
 
+def gen_line(rng):
+    """two threads calling the public methods of one controller; preemption at a few chosen scheduling points"""
+    def prog():
+        ops = []
+        for _ in range(rng.randint(2, 7)):
+            r = rng.random()
+            if r < 0.15:
+                ops.append(["adv", [rng.choice([32, 64, 64, 128]), 64]])    # a coarse grid: the two threads often wake at the same instant
+            elif r < 0.5:
+                ops.append(["read", rng.choice("TPM")])
+            elif r < 0.62:
+                ops.append(["setscale", rng.choice(SCALES + [[0, 1]])])
+            elif r < 0.72:
+                ops.append(["pause"])
+            elif r < 0.82:
+                ops.append(["resume"])
+            elif r < 0.92:
+                ops.append(["export"])
+            else:
+                ops.append(["load"] + [[rng.randint(0, 2 ** 16), rng.choice([1, 4])] for _ in range(3)])
+        return ops
+    k = rng.choice([1, 1, 2, 3, 4, 6])
+    # preemption points as fractions of the length of the un-preempted run (measured by the runner)
+    return {"kind": "line", "now0": [rng.randint(0, 4096), rng.choice([1, 16])], "A": prog(), "B": prog(),
+            "preempt_frac": sorted(round(rng.random(), 3) for _ in range(k)), "pick": rng.randrange(1000), "ops": []}
+
+
+SYSTEMATIC = [
+    {"A": [["adv", [64, 64]], ["setscale", [2, 1]], ["read", "T"]], "B": [["adv", [64, 64]], ["read", "T"], ["read", "P"]]},
+    {"A": [["adv", [64, 64]], ["pause"], ["adv", [64, 64]], ["resume"], ["read", "T"]], "B": [["adv", [64, 64]], ["read", "M"], ["adv", [64, 64]], ["read", "T"], ["export"]]},
+    {"A": [["adv", [32, 64]], ["export"], ["read", "T"], ["setscale", [1, 2]]], "B": [["adv", [32, 64]], ["load", [100, 1], [200, 1], [300, 1]], ["read", "T"], ["read", "P"]]},
+]
+
+
+def systematic_line_cases(points):
+    """every single preemption point (as a fraction of the run's length) of three fixed two-thread programs in which a
+    writer (set_time_scale / pause / resume / export / load) and a reader are active at the same instant, for two
+    choices of who moves first"""
+    out = []
+    for prog in SYSTEMATIC:
+        for pk in (0, 1):
+            for i in range(points):
+                out.append({"kind": "line", "now0": [64, 1], "A": prog["A"], "B": prog["B"], "preempt_frac": [i / points], "pick": pk, "ops": []})
+    return out
+
+
 def gen(rng, tier):
-    n = {"quick": 1500, "thorough": 50000, "search": 6000}[tier]
-    return [gen_one(rng) for _ in range(n)]
+    n, nl = {"quick": (1500, 600), "thorough": (50000, 6000), "search": (6000, 2500)}[tier]
+    cases = [gen_one(rng) for _ in range(n)] + [gen_line(rng) for _ in range(nl)] + systematic_line_cases(120 if tier == "quick" else 300)
+    if tier == "thorough":
+        # every single preemption point of a few programs
+        for _ in range(12):
+            base = gen_line(rng)
+            cases += [dict(base, preempt_frac=[i / 250]) for i in range(250)]
+        # pairs of preemption points of a few programs in which both threads are active at the same instants
+        for _ in range(6):
+            base = gen_line(rng)
+            for key in ("A", "B"):
+                base[key] = [o for o in base[key] if o[0] != "adv"][:4] or [["read", "T"]]
+            base["A"] = [["adv", [64, 64]]] + base["A"] + [["setscale", [2, 1]], ["read", "T"]]
+            base["B"] = [["adv", [64, 64]]] + base["B"] + [["read", "P"], ["pause"], ["read", "M"]]
+            cases += [dict(base, preempt_frac=[a / 60, b / 60], pick=pk) for a in range(60) for b in range(a + 1, 60, 2) for pk in (0, 1)]
+    return cases
 
 
 def precheck(case, obs):
@@ -102,20 +163,24 @@ def _out(o):
     return "ONone3" if o[0] == "none" else "OErr3"
 
 
-def coq_input(case):
-    return "{| offT := 1000; offP := 5; offM := 7; now0 := %s; ops := %s |}" % (_q(case["now0"]), cl(_op(o) for o in case["ops"]))
+def coq_input(case, obs=None):
+    # a line-level case is judged as the sequential history in which its operations took the lock
+    ops = obs["serial_ops"] if (case.get("kind") == "line" and obs is not None) else case["ops"]
+    return "{| offT := 1000; offP := 5; offM := 7; now0 := %s; ops := %s |}" % (_q(case["now0"]), cl(_op(o) for o in ops))
 
 
 def coq_case(case, obs):
-    return f"({coq_input(case)}, {cl(_out(o) for o in obs['outs'])})"
+    return f"({coq_input(case, obs)}, {cl(_out(o) for o in obs['outs'])})"
 
 
 def coq_expected(case, obs):
-    i = coq_input(case)
+    i = coq_input(case, obs)
     return f"map (fun c => srun (sinit (off {i} c) (now0 {i})) (map (proj_op c) (ops {i}))) [CT; CP; CM]"
 
 
 def nontrivial(case, obs):
+    if case.get("kind") == "line":
+        return obs.get("switches", 0) >= 2
     kinds = [o[0] for o in case["ops"]]
     has_scale = "setscale" in kinds
     paused_adv = False
@@ -136,6 +201,8 @@ def nontrivial(case, obs):
 def signature(case, obs):
     if "error" in obs or "crash" in obs:
         return "raises"
+    if case.get("kind") == "line":
+        return "concurrent-callers-not-one-clock"
     kinds = [o[0] for o in case["ops"]]
     if "export" in kinds and not any(k in ("setscale", "pause", "resume", "load", "sleep") for k in kinds):
         return "clock-shifts-after-export"
@@ -144,6 +211,14 @@ def signature(case, obs):
 
 def shrink(case):
     out = []
+    if case.get("kind") == "line":
+        for key in ("A", "B"):
+            for i in range(len(case[key]) - 1, -1, -1):
+                c = dict(case); c[key] = case[key][:i] + case[key][i + 1:]; out.append(c)
+        pf = case.get("preempt_frac") or []
+        for i in range(len(pf)):
+            c = dict(case); c["preempt_frac"] = pf[:i] + pf[i + 1:]; out.append(c)
+        return out
     ops = case["ops"]
     for i in range(len(ops) - 1, -1, -1):
         c = dict(case); c["ops"] = ops[:i] + ops[i + 1:]; out.append(c)
@@ -151,11 +226,14 @@ def shrink(case):
 
 
 def describe(case, obs):
+    if case.get("kind") == "line":
+        return {"input": case, "serialised_as": obs.get("serial_ops"), "outputs": obs.get("outs"), "error": obs.get("error")}
     return {"input": case, "outputs": (obs.get("outs") or [])[:12]}
 
 
 def distribution(cases, obs):
-    d = {"ops": {}, "len": {}, "scales": {}}
+    d = {"ops": {}, "len": {}, "scales": {}, "line_level_cases": sum(1 for c in cases if c.get("kind") == "line"),
+         "line_level_switches": sum(o.get("switches", 0) for c, o in zip(cases, obs) if c.get("kind") == "line")}
     for c in cases:
         b = str(len(c["ops"]) // 10 * 10)
         d["len"][b] = d["len"].get(b, 0) + 1
@@ -166,7 +244,7 @@ def distribution(cases, obs):
                 d["scales"][k] = d["scales"].get(k, 0) + 1
     return d
 
-TECHNIQUE = 'Coq refinement proof: the anchor arithmetic of TimeController refines the abstract scaled/pausable clock, for every operation history over Q + differential correspondence on a virtual raw clock'
+TECHNIQUE = 'Coq refinement proof: the anchor arithmetic of TimeController refines the abstract scaled/pausable clock, for every operation history over Q; every interleaving of lock-protected operations is a serial history (generic lock theorem) + differential correspondence on a virtual raw clock, sequential and two-thread line-level'
 LEVEL_TEXT = "Machine-checked refinement: for every history of read/set-scale/pause/resume/export/load/sleep operations with any rational arguments and any real-time advance between them, every output of the model of time.py equals the output of the abstract clock 'value grows at rate scale while not paused' (hence monotone, still while paused, continuous across scale changes / pause / resume, pure reads and exports, continues after load, sleep(d) lasts d/scale). The model is tied to /repo by re-executing pamiq_core/time.py on a virtual stdlib time module and comparing all three channels exactly (dyadic values) inside Coq, against both the code model and the abstract clock."
 LEVEL_NOTE = 'Trusted: Coq kernel + vm_compute; coq/Model/Clock.v; harness/sim/faketime.py; exactness of float arithmetic on the generated dyadic values. Real time advances only between operations; float rounding not modelled.'
 DESIGN_REF = 'DESIGN.md §4 C06'
